@@ -223,9 +223,10 @@ def _generate(raw, path, version, info):
     norm = "\n".join([parts["const"], parts["type"]] + [parts[f] for f in FUNCS])
     info["functions_sha256"] = hashlib.sha256(norm.encode()).hexdigest()
     info["sites"] = len(found)
-    header = ("// Code generated by vlib/mxgen.py from %s (sha256 %s, %s); DO NOT EDIT, DO NOT COMMIT.\n"
+    header = ("//go:build mxgen\n\n"
+              "// Code generated by vlib/mxgen.py from %s (sha256 %s, %s); DO NOT EDIT, DO NOT COMMIT.\n"
               "// Verbatim copy of the const block, the struct and Lock/lockSlow/Unlock/unlockSlow with token substitutions only.\n"
-              "package main\n\nimport \"unsafe\"\n\nvar _ = unsafe.Pointer(nil)\n\n" % (path, info["sha256"], version))
+              "package main\n\nimport \"unsafe\"\n\nvar _ = unsafe.Pointer(nil)\n\nconst vxGenerated = true\n\n" % (path, info["sha256"], version))
     return header + "\n".join(body), info
 
 
